@@ -18,6 +18,12 @@ def c02_rt(tier, seed):
 
 NOT_APPLICABLE = {}
 
+def c04_rt(tier, seed):
+    from pyvc.rtcheck import run_rt
+
+    return run_rt("c04_rt.py", "aioftp.server:User.get_permissions::User.get_permissions", tier, seed, 2000, 100000)
+
+
 PROPS = {
     "C02": {
         "modules": ["contracts.c02_paths"],
@@ -40,8 +46,8 @@ PROPS = {
         "explanation": "",
     },
     "C11": {
-        "modules": ["contracts.c11_ports", "contracts.server_units"],
-        "unit_filter": ["Server._start_passive_server", "Server._start_passive_server#PIPE", "Server.pasv#SEQ", "Server.epsv#SEQ"],
+        "modules": ["contracts.c11_ports", "contracts.server_units", "contracts.dispatcher_units"],
+        "unit_filter": ["Server._start_passive_server", "Server._start_passive_server#PIPE", "Server.pasv#SEQ", "Server.epsv#SEQ", "Server.dispatcher/finally"],
         "level": "proof",
         "trusted_base": [T_PY, T_ENGINE, T_SOLVER, T_AIO, T_CONN, T_IND],
         "assumptions": ["PriorityQueue modelled as a multiset of ports (priorities ignored: the ledger is about ports)"],
@@ -76,6 +82,15 @@ PROPS = {
         "trusted_base": [T_PY, T_ENGINE, T_SOLVER, T_AIO, T_CONN],
         "assumptions": ["cancellation is delivered at a suspension point of the task (T-aio); SEQ interference"],
         "not_decided": ["real timing between client and server", "'only a prefix is delivered or stored' (needs the C01 transfer-loop invariants)"],
+        "explanation": "",
+    },
+    "C04": {
+        "modules": ["contracts.c04_permissions", "contracts.c02_paths", "contracts.server_units", "contracts.worker_units"],
+        "extra": ["contracts.index.c02_rt", "contracts.index.c04_rt"],
+        "level": "proof",
+        "trusted_base": [T_PY, T_ENGINE, T_SOLVER, T_PATH, T_AIO, T_CONN],
+        "assumptions": ["SEQ interference (one command at a time)", "the verb table (readers/modifiers) is taken from the property statement and checked against the executed decorator stacks"],
+        "not_decided": [],
         "explanation": "",
     },
     "C10": {
